@@ -345,7 +345,17 @@ class Ctx:
                 self.known_hits.append((key, known[key]))
             else:
                 self.violations.append(Violation(key, "recorded event violates %s: %s" % (key.split("/")[-1], ev[:700]),
-                                                 {"op": "trace", "recorder": recorder, "event": json.loads(ev)}))
+                                                 {"op": "trace", "recorder": recorder, "module": module,
+                                                  "invariants": list(invariants), "event": json.loads(ev)}))
+
+    def replay_trace_case(self, case):
+        """Re-record the single logged input of a trace-direction violation and validate it again."""
+        src = os.path.join(self.scratch, "replay-src.ndjson")
+        with open(src, "w") as f:
+            f.write(json.dumps(case["event"]) + "\n")
+        single = os.path.join(self.scratch, "replay-single.ndjson")
+        self.run_harness(["record", case["recorder"], "--from", src, "--line", "1", "--out", single])
+        return self.validate_trace(case["module"], single, case["invariants"])
 
     # ------------------------------------------------------ violation handling
     def handle_violations(self, viols, limit=25):
